@@ -18,6 +18,7 @@ A design spec is plain JSON-able data (dicts / lists / ints / strings):
 The reference model (class Ref) never imports pymtl3: signals are bit cells, connections are unions of cells,
 blocks are interpreted on Python ints with explicit width arithmetic (DESIGN.md Appendix B).
 """
+import json
 import linecache
 import sys
 import types
@@ -295,6 +296,10 @@ def emit_stmts(stmts, ind, kind, out, op=None):
   for st in stmts:
     if st[0] == "=":
       out.append(" " * ind + f"{ref_text(st[1])} {op} {expr_text(st[2])}")
+    elif st[0] == "call":
+      out.append(" " * ind + f"{st[1]}()")
+    elif st[0] == "raw":
+      out.append(" " * ind + st[1])
     elif st[0] == "tmp":
       out.append(" " * ind + f"{st[1]} = {expr_text(st[2])}")
     elif st[0] == "for":
@@ -348,6 +353,13 @@ def emit(design, connect_order=None, connect_style=None, block_order=None):
     blks = list(c["blocks"])
     if block_order and cn in block_order:
       blks = [blks[i] for i in block_order[cn]]
+    # @s.func helpers (no arguments): their statements are inlined in block["stmts"]; only the emitted text calls them
+    for fname, fn in sorted(c.get("funcs", {}).items()):
+      L.append("    @s.func")
+      L.append(f"    def {fname}():")
+      body = []
+      emit_stmts(fn["stmts"], 6, fn["kind"], body)
+      L += body or ["      pass"]
     for b in blks:
       if b.get("lambda"):
         st = b["stmts"][0]
@@ -356,7 +368,7 @@ def emit(design, connect_order=None, connect_style=None, block_order=None):
       L.append("    @update" if b["kind"] == "comb" else "    @update_ff")
       L.append(f"    def {b['name']}():")
       body = []
-      emit_stmts(b["stmts"], 6, b["kind"], body, b.get("op"))
+      emit_stmts(b.get("emit_stmts", b["stmts"]) if not b.get("op") else b["stmts"], 6, b["kind"], body, b.get("op"))
       L += body or ["      pass"]
     if c.get("constraints"):
       L.append("    s.add_constraints( " + ", ".join(c["constraints"]) + " )")
@@ -937,11 +949,50 @@ class Gen:
         else:
           cls["constraints"].append(f"RD({ref_text(rng.choice(whole))}) > U(up_{i})")
     cls["constraints"] = sorted(set(cls["constraints"]))
+    if k.get("p_func"):
+      self.add_funcs(cls)
     self.cur_cls = outer_cls
     d["classes"][cname] = cls
     d["order"].append(cname)
     self.by_depth.setdefault(depth, []).append(cname)
     return cname
+
+  def add_funcs(self, cls):
+    """move runs of plain statements of some blocks into argument-less @s.func helpers (possibly nested two deep); the
+    block keeps the inlined statements in "stmts" (reference, analyses) and gets "emit_stmts" with the calls"""
+    rng, k = self.rng, self.k
+    def local_free(e):
+      return not any("tmp" in r for r in expr_refs(e, [])) and "lv" not in json.dumps(e) and '"sym"' not in json.dumps(e)
+    def simple(st):
+      if st[0] == "=": return local_free(st[2]) and not st[1].get("sym")
+      if st[0] == "if": return local_free(st[1]) and all(simple(x) for x in st[2]) and all(simple(x) for x in st[3])
+      return False
+    funcs = cls.setdefault("funcs", {})
+    for b in cls["blocks"]:
+      if b.get("lambda") or not b["stmts"] or rng.random() >= k["p_func"]: continue
+      st = b["stmts"]
+      runs = [i for i in range(len(st)) if simple(st[i])]
+      if not runs: continue
+      i0 = rng.choice(runs); i1 = i0
+      while i1 + 1 < len(st) and simple(st[i1 + 1]) and rng.random() < 0.6: i1 += 1
+      moved = st[i0:i1 + 1]
+      fn = f"fn_{b['name']}"
+      body = list(moved)
+      if len(moved) >= 2 and rng.random() < 0.5:
+        # nest: the tail goes into a second helper called by the first
+        cut = rng.randrange(1, len(moved))
+        funcs[fn + "_in"] = {"stmts": moved[cut:], "kind": b["kind"]}
+        body = moved[:cut] + [["call", fn + "_in"]]
+      elif rng.random() < 0.3:
+        # a pure pass-through helper in between: up -> fn -> fn_in (all statements in the inner one)
+        funcs[fn + "_in"] = {"stmts": moved, "kind": b["kind"]}
+        body = [["call", fn + "_in"]]
+      funcs[fn] = {"stmts": body, "kind": b["kind"]}
+      b["emit_stmts"] = st[:i0] + [["call", fn]] + st[i1 + 1:]
+      if i0 == 0 and i1 == len(st) - 1:
+        # keep a mention of `s` in the block itself (the monitors find the host component through the block's closure)
+        b["emit_stmts"] = [["raw", "s.reset"]] + b["emit_stmts"]
+    if not funcs: cls.pop("funcs", None)
 
   def for_block(self, sg, srcs):
     """for i in range(...): s.lst[i] @= f(i)  - list-element / loop-variable-slice reads, loop variable as operand"""
